@@ -221,3 +221,18 @@ func lenientRL(b []byte) (uint32, int, bool) {
 	}
 	return 0, 0, false
 }
+
+// boundaryProbes counts frames whose remaining length or property length sits
+// exactly on a width boundary of the variable byte integer.
+func boundaryProbes(c *sim.Ctx, frame []byte) {
+	if len(frame) < 2 {
+		return
+	}
+	h := hdrLen(frame)
+	if rl, _, ok := lenientRL(frame[1:h]); ok {
+		switch rl {
+		case 127, 128, 16383, 16384, 2097151, 2097152:
+			c.Count(fmt.Sprintf("probe.remaining-length-exactly-%d", rl))
+		}
+	}
+}
